@@ -1,4 +1,5 @@
 import SeqVerif.Model.Borders
+import SeqVerif.Model.Nodes
 import SeqVerif.Extracted.C02T
 /-!
 # C02 - the binary search of the border model = mechanical translation of `util.BinSearchInRange`
@@ -93,6 +94,41 @@ theorem c02_t_getLIDsBorders (minMID maxMID : Nat) (tbl : List Spec.ID) (le : In
     have k := key minMID 0
     simp only [if_neg hm, if_neg hm', Borders.maxU64] at k ⊢
     exact k
+
+/-! ## nodeRange / nodeOr (`node/node_range.go`, `node/node_or.go`) -/
+
+/-- the comparison a node was built with, as the callback the translated functions take -/
+def lessCb (rev : Bool) : Int → Int → Option Bool := fun a b => some (lessFn rev a.toNat b.toNat)
+
+/-- `NewRange(minVal, maxVal, reverse)`: start, bound and step - a reversed range starts at `maxVal`, is bounded by
+`minVal` and steps by -1 (`rangeNode rev lo hi` lists `[lo, hi]` upwards, or downwards when `rev`) -/
+theorem c02_t_NewRange (rev : Bool) (lo hi s : Int) :
+    (T.rangeStart rev s hi lo, T.rangeBound rev s hi lo, T.rangeStep rev hi lo)
+      = if rev then (hi, lo, -1) else (lo, hi, 1) := by
+  cases rev <;> simp [T.rangeStart, T.rangeBound, T.rangeStep]
+
+/-- one `nodeRange.Next()`: stop when the bound is `less` than the current value, else yield it and step (uint32
+values; the cursor is an `int`, so stepping below 0 leaves the uint32 range - a reversed range must not start its
+last step at 0, LIDs start at 1) -/
+theorem c02_t_range_Next (rev : Bool) (bound cur : Nat) (step : Int) (hc : cur < 4294967296)
+    (hs : step = 1 ∨ step = -1) :
+    T.nodeRange_Next (lessCb rev) bound cur step
+      = some (if lessFn rev bound cur then ((0 : Int), false, (cur : Int)) else ((cur : Int), true, (cur : Int) + step)) := by
+  unfold T.nodeRange_Next lessCb
+  have hw : wrapU32 (cur : Int) = (cur : Int) := by unfold wrapU32; omega
+  have hw2 : wrapI64 ((cur : Int) + step) = (cur : Int) + step := by unfold wrapI64; omega
+  simp only [hw, hw2, Int.toNat_natCast, Option.bind_some]
+  cases lessFn rev bound cur <;> simp
+
+/-- `nodeOr.Next()`: which side is emitted - the left one when only it has a value or its value is `less`, the right
+one symmetrically, both (one value) when equal: the three cases of `orMerge` -/
+theorem c02_t_or_side (rev hasL hasR : Bool) (l r : Nat) :
+    T.orDone hasR hasL = (!hasL && !hasR)
+    ∧ T.orTakeLeft hasR l r (lessCb rev) hasL = some (hasL && (!hasR || lessFn rev l r))
+    ∧ T.orTakeRight hasL r l (lessCb rev) hasR = some (hasR && (!hasL || lessFn rev r l)) := by
+  unfold T.orDone T.orTakeLeft T.orTakeRight lessCb
+  simp only [Int.toNat_natCast, Option.bind_some]
+  cases hasL <;> cases hasR <;> cases lessFn rev l r <;> cases lessFn rev r l <;> simp
 
 /-- a callback that panics where `sort.Search` probes makes the search panic -/
 example : T.BinSearchInRange 1 3 (fun _ => none) = none := by decide
